@@ -205,7 +205,13 @@ func (w *World) GenSend(rt *rapid.T) GenTx {
 	}
 	amt := rapid.SampledFrom([]int64{1, 999, 10_000, 1_000_000, 49_990_000, 50_000_000, 20_000_000_000, 90_000_000_000}).Draw(rt, "amt")
 	msg := &nodesTypes.MsgSend{FromAddress: Addr(from), ToAddress: Addr(to), Amount: sdk.NewInt(amt)}
-	return w.sign(msg, from, "send", fmt.Sprintf("send %d %s->%s", amt, w.KeyName(from), w.KeyName(to)))
+	toName := w.KeyName(to)
+	if rapid.IntRange(0, 9).Draw(rt, "oddRecipient") == 0 {
+		// nothing in the encoding or in ValidateBasic restricts a recipient to 20 bytes (e.g. a pasted 32-byte public key)
+		msg.ToAddress = OddAddress(rapid.IntRange(0, 3).Draw(rt, "oddWhich"))
+		toName = fmt.Sprintf("odd(%d bytes)", len(msg.ToAddress))
+	}
+	return w.sign(msg, from, "send", fmt.Sprintf("send %d %s->%s", amt, w.KeyName(from), toName))
 }
 
 // nodeCandidates are keys that are or may become node operators.
@@ -484,4 +490,19 @@ func (w *World) KeyNameAddr(a sdk.Address) string {
 		s = s[:8]
 	}
 	return s
+}
+
+// OddAddress returns one of a few deterministic recipient addresses whose length is not 20 bytes.
+func OddAddress(i int) sdk.Address {
+	k := Key(fmt.Sprintf("odd-address-%d", i)).PublicKey().RawBytes()
+	switch i % 4 {
+	case 0:
+		return sdk.Address(k) // 32 bytes
+	case 1:
+		return sdk.Address(k[:5])
+	case 2:
+		return sdk.Address(append(append([]byte{}, k...), k[:8]...)) // 40 bytes
+	default:
+		return sdk.Address(k[:21])
+	}
 }
